@@ -44,7 +44,7 @@ Fixpoint ncount_loop (fuel : nat) (maxSV1 : N) (remaining threshold nbBits charn
   | S f =>
     (* zero run *)
     let '(charnum1, s1, acc1) :=
-      if prev0 then let '(n0, s') := read_repeats 256 s 0 in (charnum + n0, s', repeatN 0%Z (N.to_nat n0) acc)
+      if prev0 then let '(n0, s') := read_repeats 256 s 0 in (charnum + n0, s', repeatN 0%Z n0 acc)
       else (charnum, s, acc) in
     if maxSV1 <=? charnum1 then
       (* libzstd: break, then remaining != 1 => corruption (remaining > 1 here) *)
@@ -127,7 +127,7 @@ Definition count_sum (counts : list Z) : Z := fold_left (fun a c => (a + Z.abs c
 Definition build_dtable (log : N) (counts : list Z) : res fse_table :=
   let size := pow2 log in
   check (Z.eqb (count_sum counts) (Z.of_N size)) else Eformat @ 110;
-  let tbl0 := repeatN 0 (N.to_nat size) [] in
+  let tbl0 := repeatN 0 size [] in
   let '(high, tbl1) := place_low counts 0 (size - 1) tbl0 in
   let step := N.shiftr size 1 + N.shiftr size 3 + 3 in
   let '(pos, tbl2) := spread counts 0 0 step (size - 1) high tbl1 in
